@@ -173,7 +173,7 @@ class BtRun:
 
     def _schedule(self, j: Dict[str, Any], by: Optional[str], base_now: Optional[float] = None):
         jid = len(self.jobs) + 1
-        when = j["t"] if "t" in j else (base_now or 0.0) + j["dt"]
+        when = j["t"] if "t" in j else round((base_now or 0.0) + j["dt"], 6)
         self.jobs[jid] = {"when": when, "sched_seq": self.trace.seq, "sched_now": base_now, "by": by,
                           "spec": j}
         tzs = self.sc.get("tz_minutes", [0])
@@ -232,7 +232,7 @@ class BtRun:
             for push in sub.get("push", []):
                 if push["on"] == n:
                     now = run._now()
-                    w = (now if now is not None else S(e.when)) + push["delay"]
+                    w = round((now if now is not None else S(e.when)) + push["delay"], 6)
                     lp = run.last_push[push["to"]]
                     if lp is None or w >= lp:
                         run.last_push[push["to"]] = w
